@@ -106,17 +106,17 @@ def gen_load(rng, quick, numpy):
     if numpy:
         objs = [({"kind": "np", "n": 12, "dtype": "float64"}, "all"),
                 ({"kind": "np", "n": 24, "dtype": "int32", "shape": [4, 6], "wrap": True}, "all"),
-                ({"kind": "np", "n": 3000, "dtype": "float64", "wrap": True}, {"auto": 60 if quick else 400})]
+                ({"kind": "np", "n": 3000, "dtype": "float64", "wrap": True}, {"auto": 60 if quick else 3000})]
     else:
         objs = [({"kind": "small", "n": 30}, "all"),
                 ({"kind": "nested", "n": 5, "seed": rng.randrange(1000)}, "all"),
                 ({"kind": "strs", "n": 60, "seed": rng.randrange(1000)}, "all"),
                 ({"kind": "ints", "n": 150, "seed": rng.randrange(1000)}, "all" if not quick else {"auto": 150}),
-                ({"kind": "bytes", "n": 20000, "seed": rng.randrange(1000)}, {"auto": 90 if quick else 600}),
-                ({"kind": "repbytes", "n": 70000}, {"auto": 90 if quick else 600})]
+                ({"kind": "bytes", "n": 20000, "seed": rng.randrange(1000)}, {"auto": 90 if quick else 4000}),
+                ({"kind": "repbytes", "n": 70000}, {"auto": 90 if quick else 4000})]
         if not quick:
             objs += [({"kind": "nested", "n": 12, "seed": rng.randrange(1000)}, "all"),
-                     ({"kind": "bytes", "n": 70000, "seed": 5}, {"auto": 800})]
+                     ({"kind": "bytes", "n": 70000, "seed": 5}, {"auto": 4000})]
     for obj, trunc in objs:
         comps = list(COMPRESSORS)
         if not numpy:
@@ -269,6 +269,9 @@ def readbytes_oracle(c, r):
     # raises: legitimate only if the data ran out or a read returned nothing before `size` was reached
     if r["type"] != "ValueError":
         return "_read_bytes raised %s" % r["type"]
+    if n >= size and all(cap > 0 for cap in c["caps"]):
+        return ("_read_bytes raised ValueError although the file holds %d >= %d bytes and every read made progress "
+                "(caps %s)" % (n, size, c["caps"]))
     return None
 
 
@@ -377,7 +380,7 @@ def run(ctx):
         for n, ch in zip(r["points"], r["codes"]):
             nontrivial.add(json.dumps([c["obj"], c["compress"], n]))
     # ---- 4. _read_bytes
-    rb_cases = gen_readbytes(ctx.rng, 150 if quick else 1500)
+    rb_cases = gen_readbytes(ctx.rng, 400 if quick else 3000)
     rb_res = run_watchdog(rb_cases, nproc=4)
     rb_vals = ctx.coq_eval_lines(c13.REQ, DEFS14, [readbytes_expr(c) for c in rb_cases], name="c14_rb", shard=100)
     for c, r, v in zip(rb_cases, rb_res, rb_vals):
@@ -414,20 +417,28 @@ def run(ctx):
             nontrivial.add(json.dumps([c["obj"], c["compress"], x["damage"]]))
     # ---- hangs: deterministic ones (spin detector) stand; timer-based ones are retried once
     confirmed = []
+    retried = 0
     for what, c in hang:
-        if "spin" in what or c.get("kind") == "read":
+        if "spin" in what or "times" in what or c.get("kind") == "read":
             confirmed.append((what, c))
             continue
-        r2 = run_watchdog([c], deadline=600, extra_env={"VERIF_C14_ALARM": "40"}, nproc=1,
+        if retried >= 2:
+            if confirmed:
+                ctx.note("not re-run (same symptom as a confirmed hang): " + what)
+            else:
+                ctx.note("inconclusive, not re-run: " + what)
+            continue
+        retried += 1
+        r2 = run_watchdog([c], deadline=600, extra_env={"VERIF_C14_ALARM": "30"}, nproc=1,
                           py=common.PYNP if c.get("obj", {}).get("kind") == "np" else None)[0]
         again = "watchdog" in r2 or (c["kind"] == "load" and ("H" in r2.get("codes", "") or any(
             t[1] == "H" for t in r2.get("trailers", [])))) or (c["kind"] == "memory" and any(
                 x["code"].startswith("H") for x in r2.get("results", []))) or (
                     c["kind"] == "readbytes" and r2.get("res") == "hang")
         if again:
-            confirmed.append((what + " (confirmed with a 40 s limit)", c))
+            confirmed.append((what + " (confirmed with a 30 s limit)", c))
         else:
-            ctx.note("inconclusive: %s -- returned when retried with a 40 s limit" % what)
+            ctx.note("inconclusive: %s -- returned when retried with a 30 s limit" % what)
     for what, c in confirmed[:3]:
         ctx.violation("hang: " + what, {"kind": "oracle", "case": c}, True)
     for what, c in viol[:3]:
